@@ -172,12 +172,19 @@ func (a *c34Acct) digest() string {
 	return fmt.Sprintf("%s %s [%s] %s %s [%s]", a.bal, a.stake, strings.Join(us, ","), c34Votes(a.delegs), c34Votes(a.bonds), strings.Join(ub, ","))
 }
 
-func (w *c34World) digest(ok bool) string {
+func (w *c34World) digest(ok bool) string { return w.digestOks([]bool{ok}) }
+
+func (w *c34World) digestOks(oks []bool) string {
 	var sb strings.Builder
-	if ok {
-		sb.WriteString("done")
-	} else {
-		sb.WriteString("fail")
+	for i, ok := range oks {
+		if i > 0 {
+			sb.WriteString(",")
+		}
+		if ok {
+			sb.WriteString("done")
+		} else {
+			sb.WriteString("fail")
+		}
 	}
 	fmt.Fprintf(&sb, " h=%d", w.sim.BlockHeight())
 	for _, a := range w.actors {
@@ -208,6 +215,32 @@ func (w *c34World) exec(tx icsim.Transaction) bool {
 		return true
 	}
 	return rc[1].Status() == 1
+}
+
+// execMany runs one block with several transactions; returns the success of each.
+func (w *c34World) execMany(txs ...icsim.Transaction) []bool {
+	rc, err := w.sim.GoByTransaction(nil, txs...)
+	if err != nil {
+		panic(fmt.Sprintf("block %d failed: %+v", w.sim.BlockHeight()+1, err))
+	}
+	oks := make([]bool, len(txs))
+	for i := range txs {
+		oks[i] = rc[i+1].Status() == 1
+	}
+	return oks
+}
+
+func (w *c34World) mkStake2(toks []string) ([]icsim.Transaction, bool) {
+	if len(toks) != 4 {
+		return nil, false
+	}
+	i, err := strconv.Atoi(toks[1])
+	v1, ok1 := new(big.Int).SetString(toks[2], 10)
+	v2, ok2 := new(big.Int).SetString(toks[3], 10)
+	if err != nil || i < 0 || i >= len(w.actors) || !ok1 || !ok2 {
+		return nil, false
+	}
+	return []icsim.Transaction{w.sim.SetStake(w.actors[i], v1), w.sim.SetStake(w.actors[i], v2)}, true
 }
 
 func (w *c34World) mkTx(toks []string) (icsim.Transaction, bool) {
@@ -343,10 +376,13 @@ func c34Case(g *Gen, nOps int) {
 		}
 		maxStake := new(big.Int).Add(ac.bal, new(big.Int).Add(ac.stake, unstaking))
 		var line string
-		kind := g.Pick(0, 0, 0, 1, 1, 2, 2, 3, 4, 5, 5, 5)
+		kind := g.Pick(0, 0, 0, 1, 1, 2, 2, 3, 4, 5, 5, 5, 6)
 		sub := g.Intn(9)
 		if burst && g.Intn(3) != 0 {
 			kind, sub = 0, g.Pick(6, 6, 6, 5, 7)
+			if g.Intn(4) == 0 {
+				kind = 6
+			}
 		}
 		if ac.unbond.Sign() > 0 && g.Intn(2) == 0 {
 			kind = 1 // delegate while something is unbonding
@@ -456,6 +492,27 @@ func c34Case(g *Gen, nOps int) {
 				v = c34Amt(g, ac.bal)
 			}
 			line = fmt.Sprintf("xfer %d %d %s", i, j, v)
+		case 6: // two setStake transactions of one account in the same block (slots sharing an expiry height)
+			free := new(big.Int).Sub(ac.stake, using)
+			if free.Sign() <= 0 {
+				free = new(big.Int)
+			}
+			d1 := c34Amt(g, free)
+			v1 := new(big.Int).Sub(ac.stake, d1)
+			var v2 *big.Int
+			switch g.Intn(4) {
+			case 0: // second one stakes up again
+				v2 = new(big.Int).Add(v1, c34Amt(g, d1))
+			case 1:
+				v2 = c34Amt(g, maxStake)
+			default: // second decrease
+				v2 = new(big.Int).Sub(v1, c34Amt(g, new(big.Int).Sub(free, d1)))
+			}
+			line = fmt.Sprintf("stake2 %d %s %s", i, v1, v2)
+			txs, _ := w.mkStake2(strings.Fields(line))
+			w.execMany(txs...)
+			g.Emit("%s", line)
+			continue
 		case 4: // claim: the amount paid is a parameter of the model, observed here
 			before := w.sim.GetBalance(w.actors[i])
 			tx, _ := w.mkTx([]string{"claim", strconv.Itoa(i), "0", "0"})
@@ -504,6 +561,7 @@ func c34Gen(g *Gen) {
 // ---------------------------------------------------------------- runner + oracle
 
 type c34Runner struct {
+	shared map[string]bool // accounts that have held two unstake slots with the same expiry height
 	w    *c34World
 	last map[string]*c34Acct // state of every account after the previous block
 }
@@ -519,6 +577,7 @@ func (r *c34Runner) Step(toks []string, o *Oracle) string {
 		}
 		r.w = c34NewWorld()
 		r.last = nil
+		r.shared = nil
 		if toks[1] != strconv.FormatInt(r.w.sim.BlockHeight(), 10) || toks[5] != r.w.sim.TotalStake().String() ||
 			toks[6] != icsim.VerifC34TotalDelegation(r.w.sim).String() || toks[7] != r.w.sim.TotalBond().String() {
 			return "init-mismatch"
@@ -554,6 +613,27 @@ func (r *c34Runner) Step(toks []string, o *Oracle) string {
 		}
 		o.Count("idle")
 		return r.w.digest(true)
+	case "stake2":
+		if r.w == nil {
+			return "bad-op"
+		}
+		txs, ok := r.w.mkStake2(toks)
+		if !ok {
+			return "bad-op"
+		}
+		actor, _ := strconv.Atoi(toks[1])
+		before := r.snapshot()
+		oks := r.w.execMany(txs...)
+		r.checkBlock(o, before, actor)
+		af := r.w.acct(r.w.actors[actor])
+		for k := 1; k < len(af.unstakes); k++ {
+			if af.unstakes[k][1].Cmp(af.unstakes[k-1][1]) == 0 {
+				o.Count("two-slots-same-expiry")
+				break
+			}
+		}
+		o.Count("stake2")
+		return r.w.digestOks(oks)
 	case "stake", "deleg", "bond", "xfer", "claim":
 		if r.w == nil {
 			return "bad-op"
@@ -642,9 +722,26 @@ func (r *c34Runner) checkBlock(o *Oracle, before map[string]*c34Acct, touched ..
 		sum.Add(sum, ac.bal)
 		sum.Add(sum, ac.stake)
 		sumStake.Add(sumStake, ac.stake)
+		if r.shared == nil {
+			r.shared = map[string]bool{}
+		}
+		for k := 1; k < len(ac.unstakes); k++ {
+			if ac.unstakes[k][1].Cmp(ac.unstakes[k-1][1]) == 0 {
+				r.shared[a.String()] = true
+			}
+		}
+		lostTimer := false
 		for _, u := range ac.unstakes {
 			sum.Add(sum, u[0])
-			o.Check(u[1].Int64() > h, "c34-unstake-overdue", "account %s still holds unstake %s expiring at %s after block %d", a, u[0], u[1], h)
+			if r.shared[a.String()] {
+				// known failure class: the account left the unstaking timer of a height at which it still had a slot
+				o.Check(u[1].Int64() > h, "c34-unstake-timer-lost-shared-expiry", "account %s (had two slots sharing an expiry height) still holds unstake %s expiring at %s after block %d", a, u[0], u[1], h)
+				if u[1].Int64() <= h {
+					lostTimer = true
+				}
+			} else {
+				o.Check(u[1].Int64() > h, "c34-unstake-overdue", "account %s still holds unstake %s expiring at %s after block %d", a, u[0], u[1], h)
+			}
 			o.Check(u[0].Sign() > 0, "c34-unstake-nonpositive", "account %s unstake slot %s", a, u[0])
 		}
 		for _, u := range ac.unbonds {
@@ -683,7 +780,7 @@ func (r *c34Runner) checkBlock(o *Oracle, before map[string]*c34Acct, touched ..
 			}
 		}
 		// unstaked ICX returns exactly once, exactly at expiry
-		if before != nil && !isTouched[a.String()] {
+		if before != nil && !isTouched[a.String()] && !lostTimer {
 			bf := before[a.String()]
 			exp := new(big.Int).Set(bf.bal)
 			remain := 0
